@@ -112,6 +112,7 @@ def run(prog, R):
             R.ob("C06.1-no-silent-drop", str(arm), str(arm) in SILENT_OK, s2s.at,
                  f"{n_} path(s) of the {arm} arm return None without inserting a diagnostic" + (f" (reviewed: {SILENT_OK[str(arm)]})" if str(arm) in SILENT_OK else ": the statement vanishes from the graph silently"))
         R.floor("statement arms with a return", len(got), 25)
+    COLLAPSING = ("then_some(", "bool::then(", "is_empty(", "unwrap_or_default(", "map_or_else(", "map_or(", "Option::filter(", "::filter(", "take_while(", "skip(", "::take(")
     # ---- C06.2 role provenance
     roles = json.load(open(os.path.join(VERIF, "spec", "asg_roles.json")))["rows"]
     fns = [k for k in prog.bodies if k.startswith(S2S)]
@@ -156,6 +157,11 @@ def run(prog, R):
                     sib = [pt for j, ps_ in enumerate(row["args"]) if j != i for pt in ps_ if pt.endswith("(") and pt not in pats and pt in s_ and not (pt == "expr(" and True) and not (pt == "name(" and "string(" in s_)]
                     if not ok or sib:
                         bad.append(f"{fn.split('::')[-1]} arg{i}: {s_[:90]}" + (f" (contains sibling accessor {sib})" if sib else ""))
+                    # presence and length of a constituent are those of the accessor's result: nothing between the
+                    # accessor and the constructor may turn an empty list into "absent" or drop / default an option
+                    coll = [w for w in COLLAPSING if w in s_]
+                    if coll:
+                        bad.append(f"{fn.split('::')[-1]} arg{i}: goes through {coll}: an empty constituent (`default {{ }}`) and an absent one become the same graph")
         R.ob("C06.2-role-provenance", row["ctor"], not bad, prog.body(sites[0][0][1]).at, f"{nobs} constructions checked against roles {row['args']}; {sorted(set(bad))[:3]}")
     # BinaryExpr operand order
     ex = prog.body(S2S + "expr_to_asg_texpr")
@@ -201,7 +207,8 @@ def run(prog, R):
         b = R.anchor(prog, fn)
         if b:
             ps, _ = paths(prog, fn)
-            ok = any("__diverged__" not in p.env and "collect(" in show_full(deep_strip(p.env.get(0))) and it in show_full(deep_strip(p.env.get(0))) for p in ps)
+            rs_ = [show_full(deep_strip(p.env.get(0))) for p in ps if "__diverged__" not in p.env]
+            ok = bool(rs_) and all("collect(" in r_ and it in r_ for r_ in rs_)
             R.ob("C06.3-list-builders", fn.split("::")[-1], ok, b.at, f"= collect(map/filter_map over {it}..)")
     ip = prog.body(A + "Program::insert_stmt")
     if ip:
